@@ -773,6 +773,12 @@ class SimNet:
                 op = dict(op, _defer=op.get("_defer", 0) + 1)
                 self._push(self.now + 0.05, "app", op)
             return
+        if op.get("after_handshake") and not ep.handshake_complete and not ep.terminated:
+            # an application that waits for the handshake to complete before it acts (no early data)
+            if op.get("_defer", 0) < 4000:
+                op = dict(op, _defer=op.get("_defer", 0) + 1)
+                self._push(self.now + 0.01, "app", op)
+            return
         if early and op["op"] == "write" and op.get("wait_stream") and op["sid"] not in ep.known_streams and not ep.terminated:
             # answer to a stream of the peer that has not shown up yet: look again shortly
             if op.get("_defer", 0) < 2000:
